@@ -18,6 +18,7 @@ import sympy
 from engine.algebra import Algebra, LocalDefs
 from engine.cfg import CFG
 from engine.extract import Request
+from engine.canon import decl_of, roles_for
 from engine.tree import key
 
 IF = "src/IO/interfile.cxx"
@@ -171,7 +172,8 @@ def rule_b(ctx, ifns, iofns):
         if reads and yes:
             # every path from the read to `return yes` passes a test of the stream state
             def stream_test(x):
-                return x.k in ("CXXOperatorCallExpr", "UnaryOperator") and x.op == "!" and key(x.c[0].strip(), True) in ("s", "*s")
+                sk = "v%d" % f.params[0]["d"]  # the stream is the first parameter
+                return x.k in ("CXXOperatorCallExpr", "UnaryOperator") and x.op == "!" and key(x.c[0].strip()) in (sk, "*" + sk)
 
             p = cfg.pos.get(reads[0].i)
             w = cfg.paths_avoiding([p], stream_test, target_pred=lambda x: x.i in {y.i for y in yes}, to_exit=False) if p else [0]
@@ -224,29 +226,68 @@ def rule_d(ctx, ifns):
     if not w or not r:
         ctx.fail_broken("anchors write_basic_interfile_image_header / create_image_and_header_from not found")
         return
-    wd = [m for m in w[0].walk() if m.k == "VarDecl" and m.get("n") == "first_pixel_offsets" and m.c]
+    # ---- writer: roles from the signature (voxel_size, origin: the two CartesianCoordinate3D<float> parameters in this order) and
+    # from the code (min_indices: what get_regular_range fills in first)
+    wf = w[0]
+    cps = [p for p in wf.params if "CartesianCoordinate3D<float>" in p["t"]]
+    grr = [c for c in wf.calls() if (c.callee or "").endswith("::get_regular_range")]
     ok_w = False
-    det = "no first_pixel_offsets"
-    if wd:
-        e = wd[0].c[0].strip()
-        while e.k in ("CXXConstructExpr", "CXXTemporaryObjectExpr") and len(e.c) == 1 and "CartesianCoordinate3D" in (e.callee or ""):
-            e = e.c[0].strip()
-        k = key(e, True)
-        ok_w = re.fullmatch(r"\(\+ \(\* voxel_size stir::BasicCoordinate::BasicCoordinate\(min_indices\)\) origin\)", k) is not None or re.fullmatch(r"\(\+ origin \(\* voxel_size .*min_indices.*\)\)", k) is not None
-        det = "first_pixel_offsets = " + k
+    det = "cannot identify voxel_size/origin parameters and the min_indices filled by get_regular_range"
+    if len(cps) == 2 and grr and decl_of(grr[0].call_args()[0]) is not None:
+        wdefs = LocalDefs(wf)
+        anchors = {cps[0]["d"]: "$voxel_size", cps[1]["d"]: "$origin", decl_of(grr[0].call_args()[0]): "$min_indices"}
+        wroles = roles_for(wf, anchors, wdefs)
+        wsub = {d: (None if d in anchors else wdefs.single_def(d)) for d in wdefs.decl}
+        # what is streamed after "first pixel offset (mm) [k] :=" for k = 1,2,3
+        streamed = {}
+        for m in wf.walk():
+            if m.k == "StringLiteral":
+                mm = re.search(r"first pixel offset \(mm\) \[(\d)\]", m.get("v") or "")
+                if mm:
+                    top = m
+                    for a in m.ancestors():
+                        if a.k == "CXXOperatorCallExpr" and a.op == "<<":
+                            top = a
+                        else:
+                            break
+                    vals = [x for x in top.walk() if x.k == "CXXMemberCallExpr" and (x.callee or "").split("::")[-1] in ("x", "y", "z")]
+                    if vals:
+                        streamed[int(mm.group(1))] = ((vals[0].callee or "").split("::")[-1], key(vals[0].c[0], wroles, wsub))
+        axes = [streamed.get(i, ("?", "?"))[0] for i in (1, 2, 3)]
+        objs = {streamed.get(i, ("?", "?"))[1] for i in (1, 2, 3)}
+        k = objs.pop() if len(objs) == 1 else "?"
+        k = k.replace("stir::CartesianCoordinate3D::CartesianCoordinate3D", "").replace("stir::BasicCoordinate::BasicCoordinate", "")
+        ok_w = axes == ["x", "y", "z"] and re.sub(r"[()]", "", k) in ("+ * $voxel_size $min_indices $origin", "+ $origin * $voxel_size $min_indices", "+ * $min_indices $voxel_size $origin", "+ $origin * $min_indices $voxel_size")
+        det = "first pixel offset [1],[2],[3] = (%s) of %s" % (",".join(axes), k)
     ctx.ob("C10.d-offset-origin-inverse", w[0].qn, "offset=voxel_size*min_index+origin", ok_w, w[0].where(), det)
-    ra = [m for m in r[0].walk() if m.k in ("BinaryOperator", "CXXOperatorCallExpr") and m.op == "=" and key(m.c[0], True) == "origin"]
-    ok_r = False
-    det = "no origin assignment"
-    if ra:
-        k = key(ra[0].c[1].strip(), True)
-        ok_r = re.fullmatch(r"\(- stir::make_coordinate\(hdr\.first_pixel_offsets\[2\],hdr\.first_pixel_offsets\[1\],hdr\.first_pixel_offsets\[0\]\) \(\* voxel_size stir::BasicCoordinate::BasicCoordinate\(min_indices\)\)\)", k) is not None
-        det = "origin = " + k[:200]
+    # ---- reader: roles from the image it constructs: VoxelsOnCartesianGrid(exam_info, IndexRange<3>(min_indices, max), origin, voxel_size)
+    rf = r[0]
+    ctor = [c for c in rf.walk() if c.k in ("CXXConstructExpr", "CXXTemporaryObjectExpr", "CXXNewExpr") and "VoxelsOnCartesianGrid" in (c.callee or "") and len(c.call_args()) == 4]
+    ok_r = ok_v = False
+    det = detv = "cannot identify origin/voxel_size/min_indices from the VoxelsOnCartesianGrid constructed"
+    if ctor:
+        args = ctor[0].call_args()
+        od, vd_ = decl_of(args[2]), decl_of(args[3])
+        ir = [c for c in args[1].walk() if c.is_call() and "IndexRange" in (c.callee or "") and len(c.call_args()) == 2]
+        md = decl_of(ir[0].call_args()[0]) if ir else None
+        hp = [p for p in rf.params if "Header" in p["t"]]
+        if None not in (od, vd_, md) and hp:
+            rdefs = LocalDefs(rf)
+            anchors = {od: "$origin", vd_: "$voxel_size", md: "$min_indices", hp[0]["d"]: "$hdr"}
+            rroles = roles_for(rf, anchors, rdefs)
+            rsub = {d: (None if d in anchors else rdefs.single_def(d)) for d in rdefs.decl}
+            ra = [m for m in rf.walk() if m.k in ("BinaryOperator", "CXXOperatorCallExpr") and m.op == "=" and key(m.c[0], rroles) == "$origin"]
+            det = "no origin assignment"
+            if ra:
+                k = key(ra[0].c[1].strip(), rroles, rsub)
+                ok_r = re.fullmatch(r"\(- stir::make_coordinate\(\$hdr\.first_pixel_offsets\[2\],\$hdr\.first_pixel_offsets\[1\],\$hdr\.first_pixel_offsets\[0\]\) \(\* \$voxel_size stir::BasicCoordinate::BasicCoordinate\(\$min_indices\)\)\)", k) is not None
+                det = "origin = " + k[:200]
+            # the voxel size the reader uses is the written scaling factor, axis by axis (x=[1] -> pixel_sizes[0], ...)
+            vs = rdefs.decl.get(vd_)
+            ok_v = vs is not None and bool(vs.c) and re.search(r"\$hdr\.pixel_sizes\[2\].*\$hdr\.pixel_sizes\[1\].*\$hdr\.pixel_sizes\[0\]", key(vs.c[0], rroles, rsub)) is not None and not rdefs.writes.get("v%d" % vd_)
+            detv = "voxel_size = (z,y,x) = pixel_sizes[2],[1],[0], the order the offsets are read in" if ok_v else "voxel size axes do not match the offset axes"
     ctx.ob("C10.d-offset-origin-inverse", r[0].qn, "origin=offset-voxel_size*min_index", ok_r, r[0].where(), det)
-    # the voxel size the reader uses is the written scaling factor, axis by axis (x=[1] -> pixel_sizes[0], ...)
-    vs = [m for m in r[0].walk() if m.k == "VarDecl" and m.get("n") == "voxel_size" and m.c]
-    ok_v = bool(vs) and re.search(r"hdr\.pixel_sizes\[2\].*hdr\.pixel_sizes\[1\].*hdr\.pixel_sizes\[0\]", key(vs[0].c[0], True)) is not None
-    ctx.ob("C10.d-offset-origin-inverse", r[0].qn, "voxel-size-axes", ok_v, r[0].where(), "voxel_size = (z,y,x) = pixel_sizes[2],[1],[0], the order the offsets are read in" if ok_v else "voxel size axes do not match the offset axes")
+    ctx.ob("C10.d-offset-origin-inverse", r[0].qn, "voxel-size-axes", ok_v, r[0].where(), detv)
 
 
 def rule_e(ctx, iofns):
@@ -260,7 +301,7 @@ def rule_e(ctx, iofns):
     quots = []
     for m in f.walk():
         if m.k == "BinaryOperator" and m.op == "/":
-            num, den = key(m.c[0].strip(), True, sub), key(m.c[1].strip(), True, sub)
+            num, den = key(m.c[0].strip(), False, sub), key(m.c[1].strip(), False, sub)
             if "value()" in den or "max_value" in den or "min_value" in den:
                 quots.append((num, den, m))
     ok = True
